@@ -398,6 +398,7 @@ def run(ctx):
     recs = run_stream(ctx, monitor)
     dyn = []          # concrete violations found dynamically
     mon_calls = {}
+    op_funcs = {}     # op -> analysed functions (file:line) it was seen to run under the monitor
     for r in recs:
         if r["error"]:
             if r["error"].startswith("infra"):
@@ -412,6 +413,8 @@ def run(ctx):
             ctx.count(k, v)
         for k, v in r.get("monitor_calls", {}).items():
             mon_calls[k] = mon_calls.get(k, 0) + v
+        for op, ks in r.get("monitor_ops", {}).items():
+            op_funcs.setdefault(op, set()).update(ks)
         for x in r["records"]:
             if x["kind"] in ("impure", "impure-cursor", "func-impure"):
                 if x["kind"] == "impure" and "diff_class" not in x:
@@ -457,6 +460,8 @@ def run(ctx):
                     k = w["finding"]     # the dynamic face of a recorded finding
         elif x["kind"] == "impure-cursor":
             k = f"{op}:cursor-changed"
+        elif str(x.get("diff_class", "")).startswith("cache:"):
+            k = f"cache-entry-edited:{x['diff_class'][6:]}"
         else:
             k = f"{op}:existing-proc-changed:{x.get('diff_class', '?')}"
         ctx.violation(k, x["what"], x)
@@ -475,16 +480,21 @@ def run(ctx):
                 srcline = tr.mods[f["file"]].src.splitlines()[f["line"] - 1].strip()
             except Exception:
                 pass
-            # a dynamic record that implicates the same function = the concrete operation
+            # attribute dynamic records to the site: the function monitor saw this very function edit an
+            # argument, or an existing object changed during an operation that is known to run the function
+            fkey = f"{f['file']}:{func_line.get((f['file'], f['func']), -1)}"
+            ops = sorted(op for op, ks in op_funcs.items() if fkey in ks)
             hit = [x for x in dyn if x["kind"] == "func-impure" and x["detail"]["func"].replace(".<locals>", "") == f["func"]]
+            hit += [x for x in dyn if x["kind"] != "func-impure" and (x.get("att") or {}).get("op") in ops]
             what = (f"obligation AllMutationsFresh broken at {f['file']}:{f['line']} in {f['func']}: {f['what']} on `{f['var']}` "
                     f"whose origin is {f['origin']}: `{srcline}`")
-            if hit or dyn:
-                # the concrete VIOLATION lines above are the failing inputs; name the site as well
-                ctx.violation(sk, what + "  (reproduced dynamically: see the concrete violations of this run)",
-                              {"site": f, "source": srcline, "dynamic": (hit or dyn)[0]})
+            if hit:
+                # the concrete VIOLATION lines of this run are the failing inputs; name the site as well
+                ctx.violation(sk, what + f"  (reproduced dynamically by {sorted({(x.get('att') or {}).get('op', '?') for x in hit})[:4]})",
+                              {"site": f, "source": srcline, "operations_that_run_the_function": ops, "dynamic": hit[0]})
             else:
-                ctx.violation(sk, what, {"site": f, "source": srcline}, no_input=True)
+                ctx.violation(sk, what + f"  (operations seen to run the function: {ops[:6] or 'none'})",
+                              {"site": f, "source": srcline, "operations_that_run_the_function": ops}, no_input=True)
         if broken and not fails:
             ctx.violation("obligation:build-broken", f"Lean obligations broken: {broken}",
                           {"broken": broken, "log": ctx.extra.get("build_log_tail", "")[-1500:]}, no_input=True)
